@@ -1,11 +1,11 @@
 from vlib.driver import Job
 
 REL, PKG, H = "lex", "lex", "c09_scan.go"
-NSETS = 24
+NSETS = 27
 WANTERR = {21, 22}
 SCS = {14: (0, 1)}
 NONASCII = {9, 10, 15, 16}      # sets whose interesting inputs are non-ASCII: free bytes
-HEAVY = {5, 7, 12, 13, 17, 20}
+HEAVY = {2, 5, 7, 12, 13, 17, 20, 24}
 
 
 def jobs(ctx):
@@ -30,13 +30,13 @@ def jobs(ctx):
 
 def describe(ctx):
     return {
-        "explanation": "For each of 24 rule sets (the sets of lex_test.go plus bounded repetition, named patterns, {eoi}, case-insensitive, byte mode with "
+        "explanation": "For each of 27 rule sets (the sets of lex_test.go plus bounded repetition, named patterns, {eoi}, case-insensitive, byte mode with "
                        "classes over 0x80-0xff, two start conditions, non-ASCII classes, identical rules and non-backtracking rejection) the real ParseRegexp and "
                        "lex.Compile run concretely inside the executor; Tables.Scan (incl. utf8.DecodeRuneInString and sort.Search) is then executed on a symbolic "
                        "text and compared with a denotational matcher over the parsed regex ASTs: largest non-empty prefix matched by an active rule, highest "
                        "precedence rule, otherwise action 0 with the longest viable prefix.",
         "bounds": {"text": "quick: n<=4 ASCII-constrained bytes (3 for the larger sets) and n<=2 (3 for non-ASCII sets) unconstrained bytes; thorough: 6/5 and 3/4",
-                   "rule sets": "24 corpus members in harness/c09_scan.go; every start condition of each"},
+                   "rule sets": "27 corpus members in harness/c09_scan.go; every start condition of each"},
         "outside": ["rule sets outside the corpus (lex.Compile is exercised only through them)", "longer texts", "regex ASTs are trusted as parsed by lex.ParseRegexp (checked separately in C10)"],
         "trusted": ["go/ssa", "symgo executor", "z3", "harness reference matcher verifMatch/verifPrefix", "lex.ParseRegexp output"],
         "assumptions": ["every sub-expression of a corpus regex denotes a non-empty language (used by the viable-prefix oracle)"],
